@@ -50,13 +50,14 @@ func Harness_C03comment(arg int) {
 		// "//{" opens a recovery operator, not a comment
 		symAssume(body[0] != '\n' && body[1] != '\n' && body[0] != '{')
 		symAssume(body[0] < 0x80 && body[1] < 0x80) // the grammar must be UTF-8 text
-		ins = append([]byte("//"), body...)
+		// (a space first: directly behind a "/" token the two slashes would pair up differently)
+		ins = append([]byte(" //"), body...)
 		ins = append(ins, '\n')
 	} else {
 		symAssume(!(body[0] == '*' && body[1] == '/'))
 		symAssume(body[0] < 0x80 && body[1] < 0x80) // the grammar must be UTF-8 text
 		symAssume(body[1] != '*') // would pair with the closing "/" and leave a stray "*/"... keep the comment well-formed
-		ins = append([]byte("/*"), body...)
+		ins = append([]byte(" /*"), body...)
 		ins = append(ins, '*', '/')
 	}
 	text := append([]byte{}, cs.text[:off]...)
